@@ -33,6 +33,10 @@ def cases(tier, seed):
     # expensive for the solver - measured 60 s for one 2+2 sequence - and the overflow does not need more than two rows)
     for Ni, Gi, iseqs in ((2, 1, [[0, 0]]), (3, 1, [[0, 0, -1]])) if tier == "quick" else ((2, 1, [[0, 0]]), (3, 1, [[0, 0, -1], [0, 0, 0]])):
         for f in ("var", "std"):
+            if f == "std":
+                iseqs = [c for c in iseqs if sum(1 for x in c if x >= 0) <= 2]      # sqrt over three integer values came back `unknown` (measured)
+                if not iseqs:
+                    continue
             out.append({"kind": "var", "func": f, "ddof": 1, "N": Ni, "G": Gi, "dtype": "int64", "codes_list": [list(c) for c in iseqs],
                         "name": f"GroupBy.{f}(ddof=1) of int64 values of any magnitude/N={Ni},G={Gi}/{len(iseqs)} code sequences"})
     # var/std with transform=True through the REAL _apply_gb_reduction(transform=True): every row gets its group's variance
